@@ -187,6 +187,9 @@ class Attribute:
             if not isinstance(value, (list, tuple)):
                 value = [value]
             return [self.converter(v) for v in value]
+        if isinstance(value, (list, tuple)):
+            # (an attribute without a converter would keep the list, and write all its elements under a count of 1)
+            raise TypeError(f"{self.__class__.__name__} '{self._label}' holds a single value; got {type(value)}: {value}")
         return self.converter(value)
 
     @property
